@@ -15,16 +15,23 @@ package main
 
 import (
 	"fmt"
+	"io"
+	"net/http"
 	"runtime"
 	"strconv"
+	"strings"
 	"sync"
 	"sync/atomic"
 	"time"
 
 	"lunar/engine/config"
+	"lunar/engine/routing"
+	"lunar/engine/services"
 	sharedConfig "lunar/shared-model/config"
 	contextmanager "lunar/toolkit-core/context-manager"
 
+	"github.com/negasus/haproxy-spoe-go/message"
+	"github.com/negasus/haproxy-spoe-go/payload/kv"
 	"github.com/rs/zerolog"
 
 	c "verifharness/common"
@@ -102,16 +109,23 @@ func (k *vclock) kill() {
 
 // Op is what the generator asks for.
 type Op struct {
-	K   string `json:"op"` // get | update | revert | refuse | adv | ticktxn | tickver
+	K   string `json:"op"` // get | update | revert | refuse | adv | ticktxn | tickver | req | resp
 	Txn int    `json:"txn,omitempty"`
 	Tag int    `json:"tag,omitempty"`
 	D   int64  `json:"d_ns,omitempty"`
+	// req / resp (suite "routing"): transaction Txn of sequence Seq; the response carries Status
+	Seq    int `json:"seq,omitempty"`
+	Status int `json:"status,omitempty"`
 }
 
 // Ev is one action as it was executed on the implementation.
 type Ev struct {
-	A        string `json:"act"` // get | update | refused | vactxn | vacver
+	A        string `json:"act"` // get | update | refused | vactxn | vacver | req | resp
 	Txn      int    `json:"txn,omitempty"`
+	Seq      int    `json:"seq,omitempty"`
+	Status   int    `json:"status,omitempty"`
+	Retry    bool   `json:"retry_action,omitempty"` // resp: the retry remedy of the policies used took action
+	Err      string `json:"err,omitempty"`
 	Obj      int    `json:"obj"` // update/refused: number of the object supplied; get: number read from the object returned (-1 = not one of ours)
 	Tag      int    `json:"tag"` // content class of that object
 	Now      int64  `json:"now_ns"`
@@ -121,10 +135,11 @@ type Ev struct {
 }
 
 type Case struct {
-	Auto   bool  `json:"auto_ticks"` // vacuum loops wake up when their 5 s sleep is over
-	Ops    []Op  `json:"ops"`
-	Events []Ev  `json:"events"`
-	T0     int64 `json:"t0_ns"`
+	Routing bool  `json:"routing,omitempty"` // suite "routing": through processRequest / processResponse
+	Auto    bool  `json:"auto_ticks"`        // vacuum loops wake up when their 5 s sleep is over
+	Ops     []Op  `json:"ops"`
+	Events  []Ev  `json:"events"`
+	T0      int64 `json:"t0_ns"`
 	// statistics (not compared, not used by the monitor)
 	Fallbacks  int `json:"stat_fallbacks"`
 	Reanchored int `json:"stat_reanchored"`
@@ -176,10 +191,11 @@ type hist struct {
 	clk     *vclock
 	acc     *config.TxnPoliciesAccessor
 	objs    []*config.PoliciesData
-	id      map[*config.PoliciesData]int
 	sl      [2]*sleeper // parked vacuum loops: 0 = transactions, 1 = versions
 	side    []*sleeper  // other sleepers (scheduled un-manage); never woken
 	lastGot map[int]int
+	mgr     *routing.HandlingDataManager
+	no      int // number of this history (sequence ids are unique over the run)
 }
 
 func (h *hist) park(first bool) *sleeper {
@@ -232,9 +248,120 @@ func (h *hist) pass(which int) {
 }
 
 func (h *hist) newObj(tag int, enabled bool) (*config.PoliciesData, int) {
-	p := mkData(len(h.objs), tag, enabled)
+	var p *config.PoliciesData
+	if h.k.Routing {
+		p = mkMarked(len(h.objs), tag)
+	} else {
+		p = mkData(len(h.objs), tag, enabled)
+	}
 	h.objs = append(h.objs, p)
 	return p, len(h.objs) - 1
+}
+
+// ------------------------------------------------------------------ routing set-up
+
+// mkMarked: object n of a routing history carries ONE enabled global remedy, a
+// retry remedy whose only status condition is 500+n (attempts practically
+// unlimited, constant cool-down): a response with status 500+j is answered
+// with a retry action only if it is processed with object j.
+func mkMarked(obj, tag int) *config.PoliciesData {
+	p, err := config.BuildPolicyData(&sharedConfig.PoliciesConfig{
+		Global: sharedConfig.Global{Remedies: []sharedConfig.Remedy{{
+			Enabled: true,
+			Name:    fmt.Sprintf("obj-%d-tag-%d", obj, tag),
+			Config: sharedConfig.RemedyConfig{Retry: &sharedConfig.RetryConfig{
+				Attempts: 1 << 30, InitialCooldownSeconds: 1, CooldownMultiplier: 1,
+				Conditions: sharedConfig.RetryConfigConditions{
+					StatusCode: []sharedConfig.Range[int]{{From: 500 + obj, To: 500 + obj}}},
+			}},
+		}}},
+	}, false)
+	if err != nil {
+		panic(err)
+	}
+	return p
+}
+
+// HAProxy's management endpoint, in process: an update whose policies enable a
+// plugin PUTs to it; it answers 200, or fails while haproxyDown is set (that is
+// how a refused update is produced).
+var haproxyDown bool
+
+type haproxyStub struct{}
+
+func (haproxyStub) RoundTrip(r *http.Request) (*http.Response, error) {
+	if haproxyDown {
+		return nil, fmt.Errorf("haproxy stub: down")
+	}
+	return &http.Response{StatusCode: http.StatusOK, Status: "200 OK", Proto: "HTTP/1.1", ProtoMajor: 1, ProtoMinor: 1,
+		Header: http.Header{}, Body: io.NopCloser(strings.NewReader("")), Request: r}, nil
+}
+
+// The remedy plugins (retry state!) live on a clock that never moves and whose
+// Sleep never returns, so the marker does not decay while the accessor's clock
+// is advanced; one instance serves the whole run (sequence ids are unique).
+type frozenClock struct{ t time.Time }
+
+func (f frozenClock) Now() time.Time                       { return f.t }
+func (f frozenClock) Sleep(time.Duration)                  { runtime.Goexit() }
+func (f frozenClock) After(time.Duration) <-chan time.Time { return make(chan time.Time) }
+func (f frozenClock) Since(t time.Time) time.Duration      { return f.t.Sub(t) }
+func (f frozenClock) Until(t time.Time) time.Duration      { return t.Sub(f.t) }
+
+type nopWriter struct{}
+
+func (nopWriter) Write(b []byte) (int, error) { return len(b), nil }
+func (nopWriter) Close() error                { return nil }
+
+var (
+	svc    *services.PoliciesServices
+	histNo int
+)
+
+func policiesServices() *services.PoliciesServices {
+	if svc != nil {
+		return svc
+	}
+	contextmanager.Get().VerifC11SetClock(frozenClock{time.Unix(0, t0)})
+	done := make(chan error, 1)
+	go func() { // a synchronous Sleep during set-up would end this goroutine, not main
+		defer close(done)
+		var err error
+		svc, err = services.Initialize(nopWriter{}, 10*time.Second, sharedConfig.Exporters{})
+		done <- err
+	}()
+	if err, ok := <-done; !ok || err != nil {
+		panic(fmt.Sprintf("services.Initialize failed: %v", err))
+	}
+	return svc
+}
+
+func (h *hist) name(tok int) string { return fmt.Sprintf("h%d-t%d", h.no, tok) }
+
+func (h *hist) reqMsg(op Op) *message.Message {
+	m := kv.NewKV()
+	m.Add("id", h.name(op.Txn))
+	m.Add("sequence_id", h.name(op.Seq))
+	m.Add("method", "GET")
+	m.Add("scheme", "http")
+	m.Add("url", "example.com/things")
+	m.Add("path", "/things")
+	m.Add("query", "")
+	m.Add("headers", "")
+	m.Add("body", []byte(""))
+	return &message.Message{Name: "lunar-on-request", KV: m}
+}
+
+func (h *hist) respMsg(op Op) *message.Message {
+	m := kv.NewKV()
+	m.Add("id", h.name(op.Txn))
+	m.Add("sequence_id", h.name(op.Seq))
+	m.Add("method", "GET")
+	m.Add("url", "example.com/things")
+	m.Add("status", int64(op.Status))
+	m.Add("headers", "")
+	m.Add("body", []byte(""))
+	return &message.Message{Name: "lunar-on-response", KV: m}
 }
 
 func exec(k *Case) {
@@ -242,13 +369,28 @@ func exec(k *Case) {
 	if k.T0 == 0 {
 		k.T0 = t0
 	}
-	h := &hist{k: k, clk: newClock(k.T0), lastGot: map[int]int{}}
+	histNo++
+	h := &hist{k: k, clk: newClock(k.T0), lastGot: map[int]int{}, no: histNo}
 	defer h.clk.kill()
+	if k.Routing {
+		policiesServices() // (installs its own clock while it is built)
+	}
 	contextmanager.Get().VerifC11SetClock(h.clk)
 	p0, _ := h.newObj(0, false)
 	acc := config.NewTxnPoliciesAccessor(p0)
 	h.acc = &acc
+	if k.Routing {
+		h.mgr = routing.VerifC11NewPolicyModeManager(h.acc, p0, svc)
+	}
 	started := [2]bool{}
+	lookedUp := func() { // the first VacuumKey started the loop; it makes one pass and sleeps
+		if !started[0] {
+			started[0] = true
+			if h.sl[0] = h.park(true); h.sl[0] != nil {
+				h.ev("vactxn", 0, 0, 0, true)
+			}
+		}
+	}
 	for _, op := range k.Ops {
 		switch op.K {
 		case "get":
@@ -263,15 +405,35 @@ func exec(k *Case) {
 			}
 			h.lastGot[op.Txn] = obj
 			h.ev("get", op.Txn, obj, tag, false)
-			if !started[0] { // the first VacuumKey started the loop; it makes one pass and sleeps
-				started[0] = true
-				if h.sl[0] = h.park(true); h.sl[0] != nil {
-					h.ev("vactxn", 0, 0, 0, true)
+			lookedUp()
+		case "req":
+			_, err := routing.VerifC11ProcessRequest(h.reqMsg(op), h.mgr)
+			h.ev("req", op.Txn, 0, 0, false)
+			e := &k.Events[len(k.Events)-1]
+			e.Seq = op.Seq
+			if err != nil {
+				e.Err = err.Error()
+			}
+			lookedUp()
+		case "resp":
+			as, err := routing.VerifC11ProcessResponse(h.respMsg(op), h.mgr)
+			h.ev("resp", op.Txn, 0, 0, false)
+			e := &k.Events[len(k.Events)-1]
+			e.Seq, e.Status = op.Seq, op.Status
+			if err != nil {
+				e.Err = err.Error()
+			}
+			for _, a := range as {
+				if a.Name == "response_active_remedies" {
+					e.Retry = strings.Contains(fmt.Sprintf("%s", a.Value), `"retry"`)
 				}
 			}
+			lookedUp()
 		case "update", "revert", "refuse":
 			p, obj := h.newObj(op.Tag, op.K == "refuse")
+			haproxyDown = op.K == "refuse"
 			err := h.acc.UpdatePoliciesData(p, op.K == "revert")
+			haproxyDown = false
 			if err != nil {
 				h.ev("refused", 0, obj, op.Tag, false)
 				break
@@ -327,6 +489,19 @@ func coq(k *Case) string {
 			a = fmt.Sprintf("VacTxn %d", e.Now)
 		case "vacver":
 			a = fmt.Sprintf("VacVer %d", e.Now)
+		}
+		if k.Routing {
+			switch e.A {
+			case "req":
+				a = fmt.Sprintf("Req %d %d %d", e.Txn, e.Seq, e.Now)
+			case "resp":
+				a = fmt.Sprintf("Resp %d %d %d %d", e.Txn, e.Seq, e.Status, e.Now)
+				if e.Retry {
+					got = 1
+				}
+			default:
+				a = "Acc (" + a + ")"
+			}
 		}
 		rs := make([]int64, len(e.Retained))
 		for i, r := range e.Retained {
@@ -396,6 +571,253 @@ func monitor(k *Case) []c.Hit {
 		}
 	}
 	return hits
+}
+
+// monitorRouting restates the property at the level of the SPOE handlers: the
+// response of a transaction is processed with the policies that were current
+// when the transaction was first seen (its request; the response itself when no
+// request was seen), as long as it comes within 30 s; a transaction first seen
+// after a reload is processed with the new policies. Which policies processed a
+// response is read off the marker: object j's retry remedy answers status 500+j
+// only. A retry action therefore proves "processed with object status-500"; its
+// absence proves "processed with another object" when the retry state of the
+// sequence is known to exist (the transaction opens the sequence, or the last
+// response of the sequence got a retry action). Nothing is concluded otherwise.
+func monitorRouting(k *Case) []c.Hit {
+	var hits []c.Hit
+	add := func(sig, dem, obs string) {
+		hits = append(hits, c.Hit{Signature: sig, Demanded: dem, Observed: obs, Case: k})
+	}
+	type sight struct {
+		at  int64
+		obj int
+	}
+	current := 0
+	first := map[int]sight{}
+	alive := map[int]bool{}
+	lastAnchor := map[int]int64{}
+	for i, e := range k.Events {
+		switch e.A {
+		case "update":
+			current = e.Obj
+		case "req", "resp":
+			f, seen := first[e.Txn]
+			if !seen {
+				f = sight{e.Now, current}
+				first[e.Txn] = f
+				lastAnchor[current] = e.Now
+			}
+			if e.A == "req" {
+				break
+			}
+			j := e.Status - 500
+			within := e.Now < f.at+ttl
+			if e.Retry {
+				if within && j != f.obj {
+					add("response-used-other-version:resp",
+						fmt.Sprintf("response of transaction %d (first seen %s under object %d) is processed with object %d", e.Txn, rel(f.at-k.T0), f.obj, f.obj),
+						fmt.Sprintf("event %d at %s: status %d answered by the retry remedy of object %d", i, e.Rel, e.Status, j))
+				}
+				alive[e.Seq] = true
+			} else {
+				if within && j == f.obj && (e.Txn == e.Seq || alive[e.Seq]) {
+					add("response-not-processed-with-pinned-version:resp",
+						fmt.Sprintf("response of transaction %d (first seen %s under object %d) is processed with object %d, whose retry remedy answers status %d", e.Txn, rel(f.at-k.T0), f.obj, f.obj, e.Status),
+						fmt.Sprintf("event %d at %s: no retry action (sequence %d has retry state): other policies were used", i, e.Rel, e.Seq))
+				}
+				alive[e.Seq] = false
+			}
+		}
+		for obj, at := range lastAnchor {
+			if e.Now >= at+ttl {
+				continue
+			}
+			found := false
+			for _, r := range e.Retained {
+				found = found || r == obj
+			}
+			if !found {
+				add("retention:"+e.A,
+					fmt.Sprintf("object %d (a transaction was first seen under it at %s) is retained until 30 s later", obj, rel(at-k.T0)),
+					fmt.Sprintf("not retained after event %d (%s at %s)", i, e.A, e.Rel))
+				delete(lastAnchor, obj)
+			}
+		}
+	}
+	return hits
+}
+
+func runRouting(o *c.Out, k Case) {
+	k.Routing = true
+	exec(&k)
+	if len(k.Events) == 0 {
+		return
+	}
+	ups, retries, resps, foreign, across := 0, 0, 0, 0, 0
+	seenAt := map[int]int{} // txn -> number of updates when first seen
+	for _, e := range k.Events {
+		switch e.A {
+		case "update":
+			ups++
+		case "req", "resp":
+			if _, ok := seenAt[e.Txn]; !ok {
+				seenAt[e.Txn] = ups
+			}
+			if e.A == "resp" {
+				resps++
+				if e.Retry {
+					retries++
+				}
+				if e.Txn != e.Seq {
+					foreign++
+				}
+				if seenAt[e.Txn] != ups {
+					across++
+				}
+			}
+		}
+	}
+	o.Count(fmt.Sprintf("routing:responses=%d", min(resps, 8)))
+	o.Count(fmt.Sprintf("routing:updates=%d", min(ups, 6)))
+	if foreign > 0 {
+		o.Count("routing:has_response_with_id!=sequence_id")
+	}
+	if across > 0 {
+		o.Count("routing:has_reload_between_request_and_response")
+	}
+	o.CountN("routing:retry_actions", retries)
+	idx := o.Case("routing", coq(&k), k, foreign > 0 && across > 0 && retries > 0)
+	o.MonitorChecked(1)
+	for _, h := range monitorRouting(&k) {
+		h.Suite, h.Index = "routing", idx
+		o.Hit(h)
+	}
+}
+
+// gridRouting: sequence opened by ordinary transaction 1; its retried attempt 2
+// (id != sequence id); reload before / after the attempt's request; response
+// after d; status of the object current at the request or at the response.
+func gridRouting(o *c.Out) {
+	for _, d := range []int64{0, 1, tick, ttl - 1, ttl, ttl + 1} {
+		for _, upBefore := range []bool{false, true} {
+			for _, upBetween := range []int{0, 1, 2} {
+				for _, passes := range [][]Op{{}, {{K: "ticktxn"}, {K: "tickver"}}} {
+					for _, probe := range []string{"request", "response"} {
+						for _, foreign := range []bool{true, false} {
+							obj := 0
+							ops := []Op{{K: "req", Txn: 1, Seq: 1}, {K: "resp", Txn: 1, Seq: 1, Status: 500}}
+							if upBefore {
+								obj++
+								ops = append(ops, Op{K: "update", Tag: 1})
+							}
+							seq := 1
+							if !foreign {
+								seq = 2
+							}
+							atReq := obj
+							ops = append(ops, Op{K: "req", Txn: 2, Seq: seq})
+							for u := 0; u < upBetween; u++ {
+								obj++
+								ops = append(ops, Op{K: c.Pick(o.Rng, []string{"update", "revert"}), Tag: 2})
+							}
+							ops = append(ops, Op{K: "adv", D: d})
+							ops = append(ops, passes...)
+							st := 500 + atReq
+							if probe == "response" {
+								st = 500 + obj
+							}
+							ops = append(ops, Op{K: "resp", Txn: 2, Seq: seq, Status: st},
+								Op{K: "req", Txn: 3, Seq: 3}, Op{K: "resp", Txn: 3, Seq: 3, Status: 500 + obj})
+							runRouting(o, Case{Ops: ops})
+						}
+					}
+				}
+			}
+		}
+	}
+}
+
+// randomRouting: 1-3 sequences, each an ordinary transaction followed by 0-3
+// retried attempts (strictly one after the other inside a sequence, sequences
+// interleaved), reloads / reverts / refused reloads, clock advances and vacuum
+// passes in between. The status of a response is mostly the marker of the
+// object current when the transaction was first seen (by the generator's own
+// count of reloads), sometimes that of the object current at the response or of
+// a random one.
+func randomRouting(o *c.Out) {
+	r := o.Rng
+	deltas := []int64{0, 1, sec, tick, 2 * tick, 25 * sec, ttl - 1, ttl, ttl + 1}
+	for i := 0; i < o.Scale(1200, 12000, 20000); i++ {
+		k := Case{Auto: r.Bool()}
+		type txn struct{ id, seq int }
+		nseq := r.Range(1, 3)
+		queues := make([][]txn, nseq) // pending transactions per sequence
+		next := 1
+		for s := range queues {
+			head := next
+			next++
+			queues[s] = append(queues[s], txn{head, head})
+			for a := r.Intn(4); a > 0; a-- {
+				queues[s] = append(queues[s], txn{next, head})
+				next++
+			}
+		}
+		phase := make([]int, nseq) // 0 = request next, 1 = response next
+		firstObj := map[int]int{}
+		obj, objs := 0, 1
+		left := 0
+		for _, q := range queues {
+			left += len(q)
+		}
+		for left > 0 && len(k.Ops) < 60 {
+			x := r.Intn(100)
+			switch {
+			case x < 50:
+				s := r.Intn(nseq)
+				if len(queues[s]) == 0 {
+					continue
+				}
+				t := queues[s][0]
+				if phase[s] == 0 {
+					phase[s] = 1
+					if r.Chance(1, 20) {
+						continue // the request never reaches the engine
+					}
+					k.Ops = append(k.Ops, Op{K: "req", Txn: t.id, Seq: t.seq})
+					firstObj[t.id] = obj
+					continue
+				}
+				if _, ok := firstObj[t.id]; !ok {
+					firstObj[t.id] = obj
+				}
+				st := 500 + firstObj[t.id]
+				switch y := r.Intn(10); {
+				case y == 0:
+					st = 500 + obj
+				case y == 1:
+					st = 500 + r.Intn(objs)
+				}
+				k.Ops = append(k.Ops, Op{K: "resp", Txn: t.id, Seq: t.seq, Status: st})
+				phase[s] = 0
+				queues[s] = queues[s][1:]
+				left--
+			case x < 68:
+				k.Ops = append(k.Ops, Op{K: c.Pick(r, []string{"update", "update", "revert"}), Tag: r.Intn(4)})
+				obj = objs
+				objs++
+			case x < 70:
+				k.Ops = append(k.Ops, Op{K: "refuse", Tag: r.Intn(4)})
+				objs++
+			case x < 86:
+				k.Ops = append(k.Ops, Op{K: "adv", D: c.Pick(r, deltas)})
+			case x < 93:
+				k.Ops = append(k.Ops, Op{K: "tickver"})
+			default:
+				k.Ops = append(k.Ops, Op{K: "ticktxn"})
+			}
+		}
+		runRouting(o, k)
+	}
 }
 
 // ------------------------------------------------------------------ main
@@ -468,24 +890,36 @@ func run(o *c.Out, k Case) {
 func main() {
 	zerolog.SetGlobalLevel(zerolog.Disabled)
 	o := c.NewOut("C11")
+	http.DefaultClient.Transport = haproxyStub{}
 	o.DeclareSuite("hist", "From Verif Require Import C11.Model.", "case", "run_case")
+	o.DeclareSuite("routing", "From Verif Require Import C11.Model.", "rcase", "run_rcase")
 	o.Rule("histories of look-ups (3-4 transactions), reloads/reverts/refused reloads (fresh object each), " +
 		"clock advances and single passes of the two real vacuum loops: (a) every sequence up to a length bound over " +
 		"{get t1, get t2, update, +30s-1ns, +1ns, +5s, pass txn-vacuum, pass version-vacuum}, alone and after [get t1; update]; " +
 		"(b) a grid of request/reload/response scenarios with instants at 30 s -1/0/+1 ns after the first sight and after the reload; " +
 		"(c) random histories, half of them with the loops waking every 5 s by themselves, advances aimed at pending deadlines +-1 ns; " +
-		"distinct = distinct executed event lists; non-trivial = a reload, a later look-up of an already seen transaction and a removed version")
+		"distinct = distinct executed event lists; non-trivial = a reload, a later look-up of an already seen transaction and a removed version. " +
+		"Suite routing: the same accessor behind the real processRequest/processResponse (policy mode): sequences of an ordinary transaction and " +
+		"retried attempts (id != sequence id), reloads between a request and its response, response status = marker of the object current at " +
+		"the request (mostly) / at the response / random; grid + random; non-trivial = a response with id != sequence id, a reload between a " +
+		"request and its response, and a retry action")
 	var k Case
-	if _, ok := o.ReplayCase(&k); ok {
-		run(o, k)
+	if suite, ok := o.ReplayCase(&k); ok {
+		if suite == "routing" || k.Routing {
+			runRouting(o, k)
+		} else {
+			run(o, k)
+		}
 		o.Finish()
 		return
 	}
 	if !o.Search() {
 		exhaustive(o)
 		grid(o)
+		gridRouting(o)
 	}
 	random(o)
+	randomRouting(o)
 	if vacuumNeverStarts {
 		o.Note("a vacuum loop was never seen entering Sleep after the first VacuumKey; its passes could not be driven")
 	}
